@@ -1,4 +1,6 @@
 """C17 - reachability-based checkers CWE367/CWE243 follow their path specification."""
+import os
+
 import core
 from core import Report
 from common import TRUSTED, first_with
@@ -24,7 +26,7 @@ def check(seed, tier):
     rep = Report("C17", seed, tier)
     core.build_harness()
     meta = core.gen("C17", seed, tier, shards=8)
-    core.validate_traces(rep, TRACE_SPEC, meta["files"], parallel=4 if tier == "quick" else 8, timeout=3600)
+    core.validate_traces(rep, TRACE_SPEC, meta["files"], parallel=int(os.environ.get("VERIF_PAR", 4 if tier == "quick" else 8)), timeout=3600)
 
     def mutate(evs):
         # drop one reported warning of an accepted event: a flagged site is then missing
